@@ -81,7 +81,7 @@ BadForallDropped == Mode = "pre" =>
 FiringNow == {g \in Groups(prog, env, U) : GroupTruth(g, st, U, EpsM, {}) = "T"}
 Determined == \A g \in Groups(prog, env, U) : GroupTruth(g, st, U, EpsM, {}) # "U"
 
-StEq2(s1, s2) == s1.facts = s2.facts /\ DOMAIN s1.fl = DOMAIN s2.fl /\ \A g \in DOMAIN s1.fl : REq(s1.fl[g], s2.fl[g])
+StEq2(s1, s2) == s1.facts = s2.facts /\ DOMAIN s1.fl = DOMAIN s2.fl /\ \A g \in DOMAIN s1.fl : s1.fl[g] = s2.fl[g]
 
 OrderIndep(readNew) ==
   (Mode = "eff" /\ Succ(prog, env, st, U, EpsM, {}).ok) =>
